@@ -487,7 +487,7 @@ func runC16Force(c *Ctx) {
 func init() {
 	register(&Rule{
 		ID:    "C14.divzero",
-		Props: []string{"C14"},
+		Props: []string{"C14", "C20"},
 		Doc:   "a centroid is a quotient and an empty geometry has none: in the centroid routines every floating-point division by a computed total (summed areas/lengths, a point count) is executed only where the divisor is known non-zero (a dominating test of that total against 0) or where the receiver is known non-empty by its own IsEmpty() — for an unexported helper, at every call site. A test of the NUMBER of members is not enough: MULTIPOLYGON(EMPTY) has one member and no area, and its centroid must be the empty point, not 0/0 or (0,0)",
 		Floor: 3,
 		Run:   runC14DivZero,
@@ -2490,7 +2490,9 @@ func runC07Fresh(c *Ctx) {
 	n := 0
 	eachCall(f, func(ci ssa.CallInstruction) {
 		cal := staticCallee(ci)
-		if cal == nil || FuncName(cal) != "geom.(*twkbWriter).writeGeometry" {
+		// the member write: writeGeometry, or its type dispatch called directly (whether the
+		// member's own headers are then written is C07.formed's question)
+		if cal == nil || (FuncName(cal) != "geom.(*twkbWriter).writeGeometry" && FuncName(cal) != "geom.(*twkbWriter).writeGeometryByType") {
 			return
 		}
 		n++
@@ -2959,6 +2961,9 @@ func checkQuantifierLoops(c *Ctx, f *ssa.Function, reviewed map[string]string) i
 			if r := returnAfter(e.to); r != nil {
 				if b, ok := constBool(r.Results[0]); ok && b != dflt {
 					witness = true
+				} else if !ok {
+					// a computed answer from inside the loop can be the opposite one too
+					witness = true
 				}
 			}
 		}
@@ -2987,11 +2992,28 @@ func checkQuantifierLoops(c *Ctx, f *ssa.Function, reviewed map[string]string) i
 			}
 			if b, ok := constBool(r.Results[0]); ok && b == dflt {
 				bad = fmt.Sprintf("answered `%v` from inside the loop at %s", dflt, c.P.Pos(instrPos(r)))
+			} else if !ok && !impliedOpposite(r, dflt) {
+				bad = fmt.Sprintf("answered with a computed value, which can be `%v`, from inside the loop at %s (the verdict on one candidate is returned for all of them)", dflt, c.P.Pos(instrPos(r)))
 			}
 		}
 		c.Check(bad == "", firstPos(h), fn, construct, fmt.Sprintf("`%v` only after every candidate was looked at", dflt), "a loop that searches for a "+map[bool]string{false: "witness", true: "counter-example"}[dflt]+" is "+bad+": the candidates after that point are never looked at, so the answer depends on their order")
 	}
 	return n
+}
+
+// impliedOpposite: the computed value returned at r is known to be the
+// opposite of dflt there (it is the condition of a dominating branch, taken on
+// the edge that makes it so).
+func impliedOpposite(r *ssa.Return, dflt bool) bool {
+	v := r.Results[0]
+	for _, g0 := range guardsAtBlock(r.Block()) {
+		for _, g := range expandGuard(g0) {
+			if g.Cond == v && g.Truth == !dflt {
+				return true
+			}
+		}
+	}
+	return false
 }
 
 func registerQuantRule(id string, props []string, doc string, floor int, pick func(c *Ctx, f *ssa.Function) bool, reviewed map[string]string) {
@@ -3052,6 +3074,11 @@ func init() {
 				return pkgOf(r) == "geom" && r.Signature.Recv() != nil
 			}
 			return false
+		}, nil)
+	registerQuantRule("C09.quantifier", []string{"C09", "C20"}, general+"the hasIntersection* kernels of Intersects (a point is in a polygon iff it is in the shell and in NO hole; two collections intersect iff SOME pair of members does)", 3,
+		func(c *Ctx, f *ssa.Function) bool {
+			r := rootFunc(f)
+			return pkgOf(r) == "geom" && strings.HasPrefix(r.Name(), "hasIntersection")
 		}, nil)
 }
 
